@@ -42,7 +42,8 @@ def site(F, which):
             args.append(ip.ref_to(cell, ty))
         elif 'Vec<voronoi::voronoi_face::VoronoiFace>' in ty:
             s.out_faces = I.Sym(nf.sym_atom('faces'), 'std::vec::Vec<voronoi::voronoi_face::VoronoiFace>')
-            args.append(ip.ref_to(s.out_faces, ty, mut=True))
+            s.out_ref = ip.ref_to(s.out_faces, ty, mut=True)
+            args.append(s.out_ref)
         elif ty.startswith('std::option::Option<&[bool]'):
             args.append(I.Sym(nf.sym_atom('mask'), ty))
             s.mask_is_option = True
